@@ -109,6 +109,8 @@ AbsAtMostOnce == Len(AbsCalls) <= 1
 AbsIntact == /\ \A i \in 1..Len(AbsCalls) : AbsCalls[i].v = Payload
              /\ \A i \in 1..Len(AbsGets)  : AbsGets[i].v = Payload
 AbsNothingIfDropped == scen.cons \in DropK \cup WaitK \cup {"connect", "get_const"} => Len(AbsCalls) = 0
+\* no completion touches a waiter's stack after the blocking call returned (observed by the harness)
+AbsNoUseAfterReturn == \A n \in 1..Len(seen) : seen[n].k # "use_after_return"
 AbsWaitMeansReady ==
   \A i, j \in 1..Len(seen) : (i < j /\ seen[i].k = "waited" /\ seen[j].k = "ready") => seen[j].v = "1"
 \* the end record of an execution is judged in the state after it was consumed
